@@ -288,6 +288,7 @@ extern uint8_t *g_covhit;
 extern uintptr_t *g_covpc;
 std::map<std::string, std::pair<int, int>> coverage_by_function(); // name -> (hit, seen) -- seen==hit (lazy pcs)
 bool func_was_hit(const char *name);
+void dump_unhit_pcs(const char *path); // library-relative PCs of guards never hit in this process
 
 // strategies (core.cc)
 struct ReplayStrategy : Strategy {
